@@ -338,7 +338,7 @@ Proof. intros. unfold reset_age_difficulty. apply Forall_forall. intros e He. ap
   destruct He as (x & <- & _). split; reflexivity. Qed.
 
 (* the hypothesis on the target size (H_target) *)
-Definition target_ok (c : config) : Prop := forall s, 2 <= s -> 1 <= tsz c s < s.
+Definition target_ok (c : config) (n : Z) : Prop := 1 <= tsz c n < n.
 
 (* what one call of shake_impl does: [sel] is the selected subset *)
 Lemma shake_impl_spec : forall c st ds st' ds',
@@ -347,7 +347,7 @@ Lemma shake_impl_spec : forall c st ds st' ds',
     training st' = reset_age_difficulty P sel
     /\ Permutation (validation st' ++ sel) (validation st ++ training st)
     /\ clr_t st' = clr_t st /\ clr_v st' = clr_v st
-    /\ (target_ok c -> 2 <= population P st -> sel <> [] /\ validation st' <> []).
+    /\ (target_ok c (population P st) -> 2 <= population P st -> sel <> [] /\ validation st' <> []).
 Proof.
   intros c st ds st' ds' H. unfold shake_impl in H. cbn [move_to_validation training validation clr_t clr_v] in H.
   destruct (partition_bidir (validation st ++ training st) ds) as [[[arr p] ds1]|] eqn:Ep; [|discriminate].
@@ -364,7 +364,7 @@ Proof.
     { unfold s, population, zlen. rewrite app_length. lia. }
     assert (Hpiv : 0 < pivot < s).
     { unfold pivot. destruct ((p =? 0)%nat || (Z.of_nat p =? s)) eqn:Ef.
-      - specialize (Ht s). lia.
+      - unfold target_ok in Ht. rewrite <- Hs in Ht. lia.
       - unfold s, zlen in *. lia. }
     unfold s, zlen in Hpiv. split.
     + intro Hnil. apply (f_equal (@length _)) in Hnil. rewrite skipn_length in Hnil. cbn [length] in Hnil. lia.
@@ -372,7 +372,7 @@ Proof.
 Qed.
 
 Lemma shake_impl_progress : forall c st bs rest,
-  target_ok c -> 2 <= population P st -> Z.of_nat (length bs) = population P st ->
+  target_ok c (population P st) -> 2 <= population P st -> Z.of_nat (length bs) = population P st ->
   exists st', shake_impl P c st (bools bs ++ rest) = Some (st', rest).
 Proof.
   intros c st bs rest Ht Hpop Hbs. unfold shake_impl. cbn [move_to_validation training validation clr_t clr_v].
@@ -386,7 +386,7 @@ Proof.
   set (pivot := if (p =? 0)%nat || (Z.of_nat p =? s) then tsz c s else Z.of_nat p).
   assert (Hpiv : 0 < pivot < s).
   { unfold pivot. destruct ((p =? 0)%nat || (Z.of_nat p =? s)) eqn:Ef.
-    - specialize (Ht s). lia.
+    - unfold target_ok in Ht. rewrite <- Hs in Ht. lia.
     - unfold s, zlen in *. lia. }
   replace ((pivot <? 0) || (s <? pivot)) with false by lia.
   eexists. reflexivity.
@@ -398,7 +398,7 @@ Lemma dss_init_spec : forall c st ds st' ds',
     training st' = reset_age_difficulty P sel
     /\ Permutation (validation st' ++ sel) (reset_age_difficulty P (validation st ++ training st))
     /\ clr_t st' = clr_t st + 1 /\ clr_v st' = clr_v st + 1
-    /\ (target_ok c -> 2 <= population P st -> sel <> [] /\ validation st' <> []).
+    /\ (target_ok c (population P st) -> 2 <= population P st -> sel <> [] /\ validation st' <> []).
 Proof.
   intros c st ds st' ds' H. unfold dss_init in H.
   destruct (shake_impl P c _ ds) as [[st1 ds1]|] eqn:Es; [|discriminate].
@@ -407,8 +407,10 @@ Proof.
   cbn [training validation clr_t clr_v clear_evaluators] in *.
   exists sel. split; [exact H1|]. split; [|split; [lia|split; [lia|]]].
   - unfold reset_age_difficulty in *. rewrite map_app. exact H2.
-  - intros Ht Hpop. apply H5; auto.
-    unfold population, zlen, reset_age_difficulty in *. cbn [training validation]. rewrite !map_length. exact Hpop.
+  - intros Ht Hpop.
+    assert (Hpe : population P (mkSt (reset_age_difficulty P (training st)) (reset_age_difficulty P (validation st)) (clr_t st) (clr_v st)) = population P st).
+    { unfold population, zlen, reset_age_difficulty. cbn [training validation]. rewrite !map_length. reflexivity. }
+    apply H5; rewrite Hpe; assumption.
 Qed.
 
 Lemma dss_shake_spec : forall c gen st ds st' ds' r,
@@ -421,7 +423,7 @@ Lemma dss_shake_spec : forall c gen st ds st' ds' r,
         training st' = reset_age_difficulty P sel
         /\ Permutation (validation st' ++ sel) (map (inc_age1 P) (validation st ++ training st))
         /\ clr_t st' = clr_t st + 1 /\ clr_v st' = clr_v st + 1
-        /\ (target_ok c -> 2 <= population P st -> sel <> [] /\ validation st' <> [])).
+        /\ (target_ok c (population P st) -> 2 <= population P st -> sel <> [] /\ validation st' <> [])).
 Proof.
   intros c gen st ds st' ds' r H. unfold dss_shake in H.
   destruct (gap c =? 0) eqn:Eg; [discriminate|]. split; [lia|].
@@ -432,32 +434,40 @@ Proof.
     cbn [training validation clr_t clr_v clear_evaluators] in *.
     exists sel. split; [exact H1|]. split; [|split; [lia|split; [lia|]]].
     + rewrite map_app. exact H2.
-    + intros Ht Hpop. apply H5; auto.
-      unfold population, zlen in *. cbn [training validation]. rewrite !map_length. exact Hpop.
+    + intros Ht Hpop.
+      assert (Hpe : population P (mkSt (map (inc_age1 P) (training st)) (map (inc_age1 P) (validation st)) (clr_t st) (clr_v st)) = population P st).
+      { unfold population, zlen. cbn [training validation]. rewrite !map_length. reflexivity. }
+      apply H5; rewrite Hpe; assumption.
   - inversion H; subst. split; [reflexivity|]. split; [auto|discriminate].
 Qed.
 
 Lemma dss_shake_progress : forall c gen st bs rest,
   gap c <> 0 -> shake_due c gen = true ->
-  target_ok c -> 2 <= population P st -> Z.of_nat (length bs) = population P st ->
+  target_ok c (population P st) -> 2 <= population P st -> Z.of_nat (length bs) = population P st ->
   exists st', dss_shake P c gen st (bools bs ++ rest) = Some (st', rest, true).
 Proof.
   intros c gen st bs rest Hg Hd Ht Hpop Hbs. unfold dss_shake. replace (gap c =? 0) with false by lia.
   rewrite Hd. cbn [negb].
+  assert (Hpe : population P (mkSt (map (inc_age1 P) (training st)) (map (inc_age1 P) (validation st)) (clr_t st) (clr_v st)) = population P st).
+  { unfold population, zlen. cbn [training validation]. rewrite !map_length. reflexivity. }
   destruct (shake_impl_progress c (mkSt (map (inc_age1 P) (training st)) (map (inc_age1 P) (validation st)) (clr_t st) (clr_v st))
-              bs rest Ht) as [st1 Hs].
+              bs rest) as [st1 Hs].
+  - rewrite Hpe. exact Ht.
   - unfold population, zlen in *. cbn [training validation]. rewrite !map_length. exact Hpop.
   - unfold population, zlen in *. cbn [training validation]. rewrite !map_length. exact Hbs.
   - rewrite Hs. eexists. reflexivity.
 Qed.
 
 Lemma dss_init_progress : forall c st bs rest,
-  target_ok c -> 2 <= population P st -> Z.of_nat (length bs) = population P st ->
+  target_ok c (population P st) -> 2 <= population P st -> Z.of_nat (length bs) = population P st ->
   exists st', dss_init P c st (bools bs ++ rest) = Some (st', rest).
 Proof.
   intros c st bs rest Ht Hpop Hbs. unfold dss_init.
+  assert (Hpe : population P (mkSt (reset_age_difficulty P (training st)) (reset_age_difficulty P (validation st)) (clr_t st) (clr_v st)) = population P st).
+  { unfold population, zlen, reset_age_difficulty. cbn [training validation]. rewrite !map_length. reflexivity. }
   destruct (shake_impl_progress c (mkSt (reset_age_difficulty P (training st)) (reset_age_difficulty P (validation st)) (clr_t st) (clr_v st))
-              bs rest Ht) as [st1 Hs].
+              bs rest) as [st1 Hs].
+  - rewrite Hpe. exact Ht.
   - unfold population, zlen, reset_age_difficulty in *. cbn [training validation]. rewrite !map_length. exact Hpop.
   - unfold population, zlen, reset_age_difficulty in *. cbn [training validation]. rewrite !map_length. exact Hbs.
   - rewrite Hs. eexists. reflexivity.
@@ -504,7 +514,7 @@ Definition reshuffled (st' : state) : Prop :=
 
 Lemma step_reshuffles : forall c o st ds st' ds' r,
   step P c o st ds = Some (st', ds', r) -> reshuffles c o = true ->
-  target_ok c -> 2 <= population P st -> reshuffled st'.
+  target_ok c (population P st) -> 2 <= population P st -> reshuffled st'.
 Proof.
   intros c o st ds st' ds' r H Hre Ht Hpop. destruct o as [run|run|gen|run|f g]; cbn [step reshuffles] in *; try discriminate.
   - destruct (dss_init P c st ds) as [[s d]|] eqn:E; [|discriminate]. inversion H; subst.
@@ -535,7 +545,7 @@ Proof.
 Qed.
 
 Lemma run_ops_reshuffles : forall c ops st ds tr ds',
-  run_ops P c ops st ds = Some (tr, ds') -> target_ok c -> 2 <= population P st ->
+  run_ops P c ops st ds = Some (tr, ds') -> target_ok c (population P st) -> 2 <= population P st ->
   Forall2 (fun o sr => reshuffles c o = true -> reshuffled (fst sr)) ops tr.
 Proof.
   induction ops as [|o ops IH]; intros st ds tr ds' H Ht Hpop; cbn [run_ops] in H.
@@ -544,7 +554,8 @@ Proof.
     destruct (run_ops P c ops st1 ds1) as [[tr1 ds2]|] eqn:Er; [|discriminate].
     inversion H; subst; clear H. constructor.
     + cbn [fst]. intros Hre. eapply step_reshuffles; eauto.
-    + eapply IH; eauto. rewrite (idents_population _ _ (step_conserves _ _ _ _ _ _ _ Es)). exact Hpop.
+    + pose proof (idents_population _ _ (step_conserves _ _ _ _ _ _ _ Es)) as Hpe.
+      eapply IH; eauto; rewrite Hpe; assumption.
 Qed.
 
 (* results and clear() calls along a history: each call reports as dss::shake documents *)
@@ -627,7 +638,7 @@ Proof.
 Qed.
 
 Lemma shake_nonempty_both_thm : forall (P : Type) c o (st : state P) ds st' ds' r,
-  step P c o st ds = Some (st', ds', r) -> reshuffles c o = true -> target_ok c -> 2 <= population P st ->
+  step P c o st ds = Some (st', ds', r) -> reshuffles c o = true -> target_ok c (population P st) -> 2 <= population P st ->
   training st' <> [] /\ validation st' <> [].
 Proof.
   intros P c o st ds st' ds' r H Hre Ht Hp. destruct (step_reshuffles P c o st ds st' ds' r H Hre Ht Hp) as (A & B & _).
